@@ -377,6 +377,7 @@ class Executor(object):
         s.max_steps = max_steps
         s.max_rss_mb = int(os.environ.get('VERIF_MAX_RSS_MB', '3500'))
         s.child_first = False
+        s.heap_shift = 0
         s.budget_tick = 0
         s.max_paths = max_paths
         s.enum_limit = enum_limit
@@ -410,6 +411,7 @@ class Executor(object):
         s.tape = None
         s.concolic_tape = None
         s.alloc_policy = None
+        s.max_alloc = 1 << 28      # larger requests fail (bad_alloc)
         import models as MD
         MD.install(s)
         if models:
@@ -426,6 +428,7 @@ class Executor(object):
     # ------------------------------------------------------------------ setup
     def initial_state(s):
         st = State()
+        st.heap_next += s.heap_shift          # (twin runs with a shifted heap expose output that depends on addresses)
         for n, a, data, const in s.prog.global_images():
             o = Obj(a, len(data), data, -1, 'global', n)   # owner -1: shared, cloned on first write
             o.ro = const
@@ -1148,7 +1151,7 @@ class Executor(object):
                 st.flags['alloc_representative'] = st.flags.get('alloc_representative', 0) + 1
                 raise ForkSignal([st] + states)
         size = s.need_int(st, size, 'allocation size')
-        if size > (1 << 28):
+        if size > s.max_alloc:
             return None
         o = s.new_obj(st, size, kind, name)
         st.live_heap += size
@@ -1628,7 +1631,7 @@ class Executor(object):
         if name.startswith('@llvm.abs'):
             w = int(name.rsplit('.i', 1)[1])
             return X.ite(X.slt(av[0], 0, w), X.neg(av[0], w), av[0], w)
-        if name.startswith(('@llvm.ctlz', '@llvm.cttz', '@llvm.ctpop', '@llvm.bswap', '@llvm.fshl', '@llvm.uadd',
+        if name.startswith(('@llvm.ctlz', '@llvm.cttz', '@llvm.ctpop', '@llvm.bswap', '@llvm.fshl', '@llvm.fshr', '@llvm.uadd',
                             '@llvm.usub', '@llvm.umul', '@llvm.sadd', '@llvm.ssub', '@llvm.smul')):
             w = int(name.split('.i')[1].split('.')[0])
             return s.bit_intrinsic(st, name, av, w)
@@ -1652,6 +1655,25 @@ class Executor(object):
         if name.startswith('@llvm.usub.with.overflow'):
             x, y = av[0], av[1]
             return [X.sub(x, y, w), X.ult(x, y, w)]
+        if name.startswith('@llvm.bswap') and type(a) is E:
+            # byte swap of a symbolic value: a permutation of its bytes, no concretisation
+            nb = w // 8
+            return X.concat([(X.extract(a, 8 * i + 7, 8 * i), 8) for i in range(nb)])
+        if name.startswith(('@llvm.fshl', '@llvm.fshr')):
+            x, y, c = av[0], av[1], av[2]
+            if type(c) is E:
+                c = s.need_int(st, c, name + ' amount')
+            c %= w
+            if type(x) is not E and type(y) is not E:
+                v = ((x << w) | y)
+                return ((v << c) >> w) & ((1 << w) - 1) if name.startswith('@llvm.fshl') else (v >> c) & ((1 << w) - 1)
+            if c == 0:
+                return x if name.startswith('@llvm.fshl') else y
+            # (x:y) as a 2w-bit value; fshl takes bits [2w-1-c .. w-c], fshr bits [w-1+c .. c]
+            cat = X.concat([(x, w), (y, w)])
+            if name.startswith('@llvm.fshl'):
+                return X.extract(cat, 2 * w - 1 - c, w - c)
+            return X.extract(cat, w - 1 + c, c)
         if type(a) is E:
             a = s.need_int(st, a, name)
         if name.startswith('@llvm.ctlz'):
